@@ -109,6 +109,21 @@ pub fn c14_worker(ctx: &mut Ctx) {
     stage_worker(ctx, "C14", 60_000, 3_000_000)
 }
 pub fn c15_worker(ctx: &mut Ctx) {
+    // pair-level workload first: constructed pairs incl. exact-on-segment T contacts with inexact arithmetic
+    let total = ctx.count(2_000_000, 100_000_000);
+    let mut st = SweepStats::default();
+    for i in ctx.my_indices(total) {
+        if i % 4096 == 0 && ctx.out_of_time() {
+            break;
+        }
+        let mut rng = ctx.rng("segpair", i);
+        ctx.evaluations += 1;
+        if let Err(m) = check_segment_pair(&mut rng, &mut st) {
+            ctx.violation("ordering:pair", &m, json!({"kind": "segpair", "property": "C15", "seed": ctx.seed, "index": i}));
+        }
+    }
+    ctx.cnt("constructed_segment_pairs_compared", st.segment_pairs);
+    ctx.cnt("constructed_segment_pairs_with_decided_geometry", st.segment_geo_pairs);
     stage_worker(ctx, "C15", 20_000, 1_000_000)
 }
 
@@ -183,9 +198,19 @@ pub fn c16_worker(ctx: &mut Ctx) {
                 }
             }
             _ => {
-                let f32_run = rng.below(2) == 0;
-                let pc = gen_n2_pair(&mut rng, f32_run);
-                handle(ctx, &pc, false, &mut st, &mut n2_reported);
+                if rng.below(2) == 0 {
+                    let pc = gen_parallel_pair(&mut rng);
+                    if seg_rel(norm_seg(pc.s1), norm_seg(pc.s2)) == Rel::Disjoint {
+                        ctx.cnt("exactly_parallel_near_coincident_pairs", 1);
+                        handle(ctx, &pc, false, &mut st, &mut n2_reported);
+                    } else {
+                        ctx.cnt("parallel_pairs_skipped_not_disjoint", 1);
+                    }
+                } else {
+                    let f32_run = rng.below(2) == 0;
+                    let pc = gen_n2_pair(&mut rng, f32_run);
+                    handle(ctx, &pc, false, &mut st, &mut n2_reported);
+                }
             }
         }
         ctx.end();
